@@ -203,7 +203,8 @@ class Run:
             if not tlc_ok(out):
                 raise Infra("trace validation run failed in %s:\n%s" % (sh, out[-4000:]))
             gen, dist = tlc_stats(out)
-            lines = open(os.path.join(d, "trace.ndjson")).read().splitlines()
+            # split at \n only (str.splitlines would also split at U+0085, U+2028 ... inside recorded strings)
+            lines = [ln for ln in open(os.path.join(d, "trace.ndjson"), encoding="utf-8", errors="replace").read().split("\n") if ln]
             if dist != len(lines) + 1:
                 raise Infra("trace %s not fully consumed: %d states for %d events" % (sh, dist, len(lines)))
             self.states += dist
